@@ -331,6 +331,11 @@ def boundary_values(tier, rng):
             out.append(("QO", ("L", el), tags))
             if target <= 256:
                 out.append(("TO", ("L", el), tags))
+    # SET OF: every element is first encoded into a buffer of its own that grows 8 -> 32 -> 128 -> 512 (DER and
+    # canonical PER: _el_addbytes) or by (size << 2) + chunk (CANONICAL-XER: SET_OF_encode_xer_callback): element
+    # encodings of 31..35, 127..131, 511..515 octets, and the hex chunks of 25 octets meeting the buffer's end
+    for n in [0, 1, 2, 24, 25, 26, 28, 29, 30, 31, 32, 33, 49, 50, 51, 124, 125, 126, 127, 128, 129] + ([509] if tier == "quick" else [506, 507, 508, 509, 510, 511, 512]):
+        out.append(("TO", ("L", [pat(n), pat((n * 7) % 40, 3)]), set()))
     # an EXPLICIT tag: two TLs whose lengths cross the edges one after the other
     for n in (124, 125, 126, 127, 128, 251, 252, 253, 254, 255, 256):
         out.append(("XO", pat(n), set()))
